@@ -190,6 +190,16 @@ func OriginAtoms() []OriginAtom {
 		OriginAtom{Value: "http://1.2.3.0x4:*", Malformed: true},
 		OriginAtom{Value: "http://0x7f000001", Malformed: true},
 		OriginAtom{Value: "http://127.1", Malformed: true},
+		// a public suffix nested below a domain that is not one (s3.amazonaws.com, via the list's private section)
+		OriginAtom{Value: "https://*.amazonaws.com"},
+		OriginAtom{Value: "https://*.s3.amazonaws.com", PSL: true},
+		OriginAtom{Value: "http://*.s3.amazonaws.com:*", PSL: true, Insecure: true},
+		OriginAtom{Value: "https://*.fastly.net"},
+		OriginAtom{Value: "https://*.global.ssl.fastly.net", PSL: true},
+		// A-labels that are not valid IDNA (they violate the Bidi rule once decoded): no valid host
+		OriginAtom{Value: "https://xn--a-zhc.com", Malformed: true},
+		OriginAtom{Value: "https://1a.xn--4dbcd.com", Malformed: true},
+		OriginAtom{Value: "https://*.xn--a-0hc.com:*", Malformed: true},
 	)
 	return valid
 }
@@ -307,6 +317,14 @@ func RequestHeaderTable() []NameAtom {
 	for _, n := range []string{"proxy", "prox-y", "xproxy-a", "sec", "secx-a", "xsec-a", "cookie3", "cooki", "dn", "dnt2", "hosts", "hos", "vias", "vi", "t", "tee", "dates", "expects", "origins", "referrer", "trailers", "upgrades", "accept", "accept-language", "content-language",
 		"access-control-allow", "access-control-allow-origins", "access-control-request", "x-access-control-allow-origin", "if-match", "range", "x-http-method-override-2"} {
 		out = append(out, NameAtom{Value: n}, NameAtom{Value: strings.ToUpper(n)})
+	}
+	// invalid names that also carry a forbidden prefix: one violation (invalid), not two
+	for _, n := range []string{"Sec-Fetch Mode", "sec-foo:bar", "Proxy-Authoriz@tion", "PROXY-\xe9", "sec-", "proxy- "} {
+		r := "invalid"
+		if n == "sec-" {
+			r = "forbidden"
+		}
+		out = append(out, NameAtom{Value: n, Reason: r})
 	}
 	for _, n := range []string{"x-\u017f", "author\u0131zation", "coo\u212aie", "\u017fec-x", "ho\u017ft"} {
 		out = append(out, NameAtom{Value: n, Reason: "invalid"})
